@@ -2,7 +2,7 @@
 import ast
 
 from .model import AnalysisError, node_src, is_self_attr, call_name
-from .paths import Interp, Env, ORD, ASYNC, fmt_trace, Ctx
+from .paths import Interp, Env, ORD, ASYNC, fmt_trace, Ctx, Domain, Exc, NONE, TOP
 from . import exchange
 from .report import walk_no_nested
 
@@ -11,7 +11,7 @@ LEVEL_TEXT = (
     "Static path and structure rules that are necessary conditions of reply ownership: close-before-escape on every "
     "ordinary-exception exit after sendall (R1), noreply <=> no read, coupled with the wire token at every call site "
     "(R2), each public method interpreted end to end consumes exactly the reply the protocol defines for its own commands (R3), no receive state survives a call (R4), only Client talks to "
-    "sockets (R5). Parsing correctness under every segmentation is C03; misbehaving servers are not decided."
+    "sockets (R5), a module-level send helper is exactly one send with failures passed on (R7). Parsing correctness under every segmentation is C03; misbehaving servers are not decided."
 )
 TRUSTED = ["CPython ast", "pmcsa/paths.py interpreter", "pmcsa/wire.py fragment evaluator (R2b)", "summary: Client.close does not raise (decided by C06.R6)"]
 
@@ -128,7 +128,7 @@ def run(chk):
         for n in walk_no_nested(f.node):
             if isinstance(n, ast.Call) and isinstance(n.func, ast.Attribute) and n.func.attr in ("sendall", "send", "sendto", "sendmsg"):
                 n_send += 1
-                ok = f.cls is not None and f.cls.name == "Client" and f.name.startswith("_")  # the exchange functions or their send helper
+                ok = (f.cls is not None and f.cls.name == "Client" and f.name.startswith("_")) or (f.cls is None and f.name in getattr(prog, "send_helpers", {}))  # the exchange functions or their send helper
                 r5.expect(ok, "send site in %s" % f.qualname, "%s:send-outside-Client" % f.qualname, "%s calls .%s on a socket outside Client's exchange functions" % (f.qualname, n.func.attr), fn=f, node=n)
             if isinstance(n, ast.Call) and isinstance(n.func, ast.Attribute) and n.func.attr in ("recv", "recv_into", "recvfrom", "makefile"):
                 n_recv += 1
@@ -140,6 +140,24 @@ def run(chk):
     r5.floor("send sites (sendall + send-helper calls)", n_send + n_helper_calls, 3)
     r5.floor("sendall sites", n_send, 1)
     r5.floor("recv sites", n_recv, 1)
+    # ------------------------------------------------------------------ R7 a send helper is one send
+    r7 = chk.rule("C01.R7", "a module-level send helper is one send: on every path it calls sendall once with the data it was given, passes every failure on, and never sends again after a failure (bytes already written would be written twice and answered twice)")
+    helpers7 = getattr(prog, "send_helpers", {})
+    for hname, (si, di) in sorted(helpers7.items()):
+        hf = prog.function("pymemcache/client/base.py", hname)
+        dom7 = _SendOnce(prog, hf)
+        outs7 = Interp(dom7, hf.node, prog).run(Env({"#sends": 0, "#failed": 0}))
+        probs = list(dom7.problems)
+        for s_, v, t in outs7.of("ret"):
+            if s_.get("#sends", 0) != 1:
+                probs.append("returns normally after %d successful sends" % s_.get("#sends", 0))
+        for s_, e, t in outs7.of("exc"):
+            if not s_.get("#failed", 0):
+                probs.append("raises %s although the send did not fail" % e.cls)
+        r7.expect(not probs, "%s is one sendall of its data, failures passed on" % hname, "%s:not-one-send" % hname, "%s %s: what reaches the server is no longer exactly the request the caller built (a resent prefix is parsed as further commands, whose replies the next calls read)" % (hname, "; ".join(dict.fromkeys(probs))), fn=hf, node=hf.node)
+    if not helpers7:
+        r7.ok("no module-level send helper: every send is a sendall in Client's exchange functions")
+
     # ------------------------------------------------------------------ R6 segmentation (the C03 rules)
     r6 = chk.rule("C01.R6", "whatever way the reply is cut into pieces, the same bytes are consumed: the carry-over rules of the readers (C03.R1 no received byte dropped, C03.R4 the end-token search sees all unconsumed bytes)")
     from . import rules_C03, report
@@ -150,6 +168,23 @@ def run(chk):
     report.include_rules(chk, r6, rules_C04, ("C04.R1",), "a store command announces the length of exactly the block it sends: otherwise the server parses the surplus as commands and answers them, and those replies are read by later calls")
     chk.assume("Client.close does not raise ordinary exceptions (C06.R6)")
     chk.assume("the server answers each command with the number of reply lines the protocol defines")
+
+
+class _SendOnce(Domain):
+    """A send helper interpreted: sendall succeeds or raises OSError; what is counted is sends after a failure."""
+
+    async_enabled = False
+
+    def __init__(self, prog, fn):
+        super().__init__(prog, fn)
+        self.problems = []
+
+    def call(self, node, fval, args, kwargs, state):
+        if isinstance(node.func, ast.Attribute) and node.func.attr in ("sendall", "send"):
+            if state.get("#failed", 0):
+                self.problems.append("calls %s again after a send on the same socket has failed" % node.func.attr)
+            return [("ok", NONE, state.set("#sends", min(3, state.get("#sends", 0) + 1))), ("exc", Exc(ORD, "OSError", node.lineno), state.set("#failed", 1))]
+        return [("ok", TOP, state)]
 
 
 def _is_local(f, name):
